@@ -8,7 +8,7 @@ import re
 from vlib.common import Result, VERIF
 from vlib import mirlib as M
 from vlib import synlib as S
-from vlib.mirlib import fn_matches
+from vlib.mirlib import fn_matches, op_local, origins
 
 PRIM_CLASS = {"number": "number", "bigint": "bigint", "string": "string", "boolean": "boolean", "null": "null"}
 LIT_CLASSES = [
@@ -341,6 +341,26 @@ def visit_agreement_rule(crate, prop, rule="C12.R2"):
         vis_dep = vis_dep or set()
         if named_inl:
             r.inst(impl=self_ty, where="%s:%s" % (file, line), named_by_inline=sorted(named_inl), visited_by_visit_dependencies=sorted(vis_dep), ok=named_inl <= vis_dep)
+        # an impl that *delegates* (`fn name() { <X as TS>::name() }`) delegates every rendering to the same X: name() via
+        # `Option<Arc<T>>` and inline() via `Arc<T>` are two different types, one of them nullable
+        deleg = {}
+        for fnm in ("name", "inline", "inline_flattened"):
+            bb = fns.get(fnm)
+            if bb is None:
+                continue
+            cs = [t for _, t in bb.calls() if (t.get("fn") or {}).get("trait") == "TS" and t["fn"]["path"].split("::")[-1] == fnm]
+            others = [t for bl, t in bb.calls() if not bb.is_cleanup(bl) and t.get("fn") and not fn_matches(t, r"TS::" + fnm + "$")]
+            if len(cs) == 1 and not others:
+                a0 = (cs[0]["fn"].get("args") or [""])[0]
+                if a0 not in params and a0 != self_ty and a0 != "Self":
+                    deleg[fnm] = a0
+        if len(set(deleg.values())) > 1:
+            r.inst(impl=self_ty, where="%s:%s" % (file, line), delegates=deleg, ok=False)
+            r.fail(prop, "delegate-mismatch %s" % self_ty,
+                   "the impl forwards its renderings to different types (%s): the by-name and the inlined form of %s then describe different shapes (e.g. `T | null` by name, `T` inlined)" % (deleg, self_ty),
+                   file, line)
+        elif deleg:
+            r.inst(impl=self_ty, where="%s:%s" % (file, line), delegates=deleg, ok=True)
         # visiting is unconditional: what name()/inline() print does not depend on run-time properties of the argument
         # (e.g. whether it has a file of its own), so what is visited must not either
         for vf in ("visit_generics", "visit_dependencies"):
@@ -439,5 +459,46 @@ def map_key_rule(syn, prop, rule="C12.R4"):
                "the key slot takes K's TypeScript name as it is; for %s that is %s: `HashMap<u64, i32>` is declared `{ [key in bigint]?: number }` and `HashMap<bool, i32>` `{ [key in boolean]?: number }`, neither of which TypeScript accepts (serde_json writes `{\"1\":2}` / `{\"true\":2}`)" %
                (", ".join(t for t, _ in unkeyable[:6]) + (" .." if len(unkeyable) > 6 else ""), " / ".join(names)),
                fn["file"], e["line"])
+    r.floor = 1
+    return r
+
+
+def units_rule(crate, prop, rule="C14.R17"):
+    """byte offsets and character counts are different units"""
+    r = Result(rule, "in the runtime crate no byte quantity (`str::find`/`rfind`/`len`, `String::len`, the index of `char_indices`) is used as a *number of characters* (argument of nth/skip/take on a `Chars`/`CharIndices` iterator), and no character count (`chars().count()`) is used as a byte offset (string slicing, seek): the two agree on ASCII text only")
+    BYTE_SRC = [r"str::<impl str>::(find|rfind|len)$", r"String::len$", r"char::len_utf8$"]
+    CHAR_SRC = [r"Iterator::count$"]
+    n = 0
+    for b in crate.bodies:
+        for blk, t in b.calls():
+            if b.is_cleanup(blk) or not t.get("fn"):
+                continue
+            atys = t.get("arg_tys") or []
+            if fn_matches(t, r"Iterator::(nth|skip|take|step_by|advance_by)$") and atys and re.search(r"str::(Chars|CharIndices)", atys[0]) and len(t["args"]) > 1:
+                n += 1
+                org = origins(b, op_local(t["args"][1]), identity=M.IDENTITY_CALLS + [r"Option::<T>::(map_or|map|unwrap_or|unwrap|map_or_else)$", r"ops::Add", r"ops::Sub"]) if op_local(t["args"][1]) is not None else []
+                # arithmetic results: follow binop operands one level
+                srcs = list(org)
+                for o in org:
+                    if o["kind"] == "other" and o.get("st", {}).get("rv", {}).get("k") == "binop":
+                        for side in ("a", "b"):
+                            l2 = op_local(o["st"]["rv"].get(side)) if o["st"]["rv"].get(side) else None
+                            if l2 is not None:
+                                srcs += origins(b, l2, identity=M.IDENTITY_CALLS)
+                bytes_ = [o for o in srcs if o["kind"] == "call" and fn_matches(o["t"], *BYTE_SRC)]
+                clos = [c for c in crate.bodies if c.path.startswith(b.path + "::{closure")]
+                bytes_in_closure = any(fn_matches(t2, *BYTE_SRC) for c in clos for _, t2 in c.calls())
+                f, l = M.user_span(t["span"])
+                r.inst(fn=b.path, call=t["fn"]["path"].split("::")[-1], on=atys[0][:40], count_from_byte_quantity=bool(bytes_) or bytes_in_closure, where="%s:%s" % (f, l))
+                if bytes_ or bytes_in_closure:
+                    r.fail(prop, "byte-offset-used-as-char-count %s" % b.path,
+                           "%s on a character iterator is given a byte quantity (from find/len): with multi-byte text the iterator is advanced too far - e.g. past the end of a doc comment and over the top-level `|` that decides whether a union gets its parentheses" % t["fn"]["path"].split("::")[-1], f, l)
+            if fn_matches(t, r"str::<impl str>::(split_at|get)$", r"io::SeekFrom", r"ops::Index<.*Range") and len(t["args"]) > 1 and op_local(t["args"][1]) is not None:
+                org = origins(b, op_local(t["args"][1]), identity=M.IDENTITY_CALLS)
+                if any(o["kind"] == "call" and fn_matches(o["t"], *CHAR_SRC) for o in org):
+                    n += 1
+                    f, l = M.user_span(t["span"])
+                    r.fail(prop, "char-count-used-as-byte-offset %s" % b.path, "a `chars().count()` result is used as a byte position in %s" % t["fn"]["path"].split("::")[-1], f, l)
+    r.inst(bodies_examined=len(crate.bodies), sites=n, note="expected count is zero; positive example: seed C15_k in the self-test corpus")
     r.floor = 1
     return r
